@@ -15,6 +15,9 @@ var noteKeyPool = []string{"KEY_Z", "KEY_S", "KEY_X", "KEY_D", "KEY_C", "KEY_V",
 	"KEY_COMMA", "KEY_DOT", "KEY_SLASH", "KEY_SEMICOLON", "KEY_L", "KEY_K", "KEY_A", "KEY_F", "KEY_TAB", "KEY_GRAVE", "KEY_1", "KEY_4", "KEY_8"}
 var actionKeyPool = []string{"KEY_F1", "KEY_F2", "KEY_F3", "KEY_F4", "KEY_F5", "KEY_F6", "KEY_F7", "KEY_F8", "KEY_F9", "KEY_F10", "KEY_F11", "KEY_F12",
 	"KEY_ESC", "KEY_LEFTALT", "KEY_RIGHTALT", "KEY_LEFTCTRL", "KEY_RIGHTCTRL", "KEY_SPACE", "KEY_ENTER", "KEY_BACKSPACE", "KEY_CAPSLOCK", "KEY_LEFTSHIFT"}
+
+// keys at the edges of the key-code space (gamepad d-pad buttons of xpad devices, KEY_MAX, raw hex codes)
+var edgeKeyPool = []string{"BTN_TRIGGER_HAPPY1", "BTN_TRIGGER_HAPPY2", "BTN_TRIGGER_HAPPY40", "KEY_MAX", "x2fe", "x300", "xffff", "x1", "BTN_0", "KEY_MICMUTE", "x2c1"}
 var padKeyPool = []string{"BTN_A", "BTN_B", "BTN_X", "BTN_Y", "BTN_TL", "BTN_TR", "BTN_SELECT", "BTN_START", "BTN_THUMBL", "BTN_THUMBR"}
 var stickAxes = []string{"ABS_X", "ABS_Y", "ABS_RX", "ABS_RY", "ABS_Z", "ABS_RZ", "ABS_THROTTLE", "ABS_RUDDER", "ABS_WHEEL", "ABS_GAS"}
 var hatAxes = []string{"ABS_HAT0X", "ABS_HAT0Y", "ABS_HAT1X", "ABS_HAT1Y"}
@@ -22,6 +25,12 @@ var hatAxes = []string{"ABS_HAT0X", "ABS_HAT0Y", "ABS_HAT1X", "ABS_HAT1Y"}
 var allActions = []string{"octave_up", "octave_down", "semitone_up", "semitone_down", "channel_up", "channel_down", "mapping_up", "mapping_down", "panic", "cc_learning", "multinote"}
 
 func keyCode(name string) uint16 {
+	if len(name) > 1 && name[0] == 'x' {
+		var v uint16
+		if _, err := fmt.Sscanf(name[1:], "%x", &v); err == nil {
+			return v
+		}
+	}
 	c, ok := evdev.KEYFromString[name]
 	if !ok {
 		panic("harness: unknown key name " + name)
@@ -98,6 +107,7 @@ type genOpts struct {
 	axisKindsPerMapping bool     // draw the kind of every axis anew in every further mapping
 	edgeNotes           bool     // key-emulating axes may use notes next to 0 / 127
 	analogSubs          bool     // spread the axes over the sub-handlers (one analog section each)
+	edgeKeys            bool     // exit sequences may use keys at the edges of the key-code space
 	handlers            int
 }
 
@@ -125,6 +135,9 @@ func baseDesc(r *simrt.Rng, o genOpts) *model.Desc {
 		d.HasExit = true
 		var pool []string
 		pool = append(pool, actKeys[len(o.actions):]...)
+		if o.edgeKeys {
+			pool = append(pool, pickN(r, edgeKeyPool, 3)...)
+		}
 		if o.exitShared {
 			for _, a := range d.Actions {
 				pool = append(pool, a.Name)
